@@ -330,6 +330,9 @@ func (t *terminal) switchScreen() {
 	t.onAltScreen = !t.onAltScreen
 	size := t.screen().Size()
 	t.frontend.RegionChanged(Region{X: 0, Y: 0, X2: size.X, Y2: size.Y}, CRScreenSwitch)
+	pos := t.screen().CursorPos()
+	t.frontend.CursorMoved(pos.X, pos.Y)
+	t.frontend.StyleChanged(t.screen().Style())
 }
 
 // testHandleCommand is only for testing.
